@@ -7,7 +7,7 @@ import lib
 import suites
 
 PROP = 'C13'
-LEAN_TARGETS = ['CGV.Props.C13', 'CGV.Props.C13Chain', 'CGV.Props.C13Tokens']
+LEAN_TARGETS = ['CGV.Props.C13', 'CGV.Props.C13Chain', 'CGV.Props.C13Tokens', 'CGV.Props.C13Lead']
 RULE = ('fragment texts over organic atoms (one/two-letter, aromatic lower case), bracket atoms with annotations, CG '
         'nodes, bond symbols, nested branches, ring markers (digit, %nn, with/without bond symbol), E/Z marks, with 0-3 '
         'descriptors per atom (4 kinds, labels, orders 0-3 via symbol) before or after ring markers, after branch '
